@@ -306,9 +306,74 @@ class C14(Prop):
             out["operand_modified"] = True
         return out
 
+    LEAN_OPS = ("take", "reduce", "take_axis", "sort_axis", "reindex_axis")
+
+    def lean_vars(self, c):
+        """the Dataset's variables as arrays for the Lean side (cells of variable k are `src k i`)"""
+        dd = c["ds"]
+        toks = core.AttrTokens()
+        arrs = []
+        for key, v in dd["vars"].items():
+            arrs.append(core.lean_array({"axes": [gen.clean(dd["axes"][d]) for d in v["dims"]], "vkind": v["vkind"],
+                                         "attrs_py": {"long_name": key}}, toks))
+        return list(dd["vars"]), arrs, toks
+
     def request(self, c):
-        # the tie of C14 is the commuting square on the implementation; the Lean side are the theorems
-        return {"op": "union", "a": {"name": "x", "kind": "i", "labels": []}, "b": {"name": "x", "kind": "i", "labels": []}, "join": "outer"}
+        op = c["op"]
+        if op not in self.LEAN_OPS or (op == "take" and c["second"]):
+            # interp / arithmetic / stack_ds / concatenate_ds and two-dimensional takes: decided by the commuting
+            # square on the implementation only
+            return {"op": "union", "a": {"name": "x", "kind": "i", "labels": []}, "b": {"name": "x", "kind": "i", "labels": []}, "join": "outer"}
+        keys, arrs, toks = self.lean_vars(c)
+        r = {"op": "ds_op", "keys": keys, "arrays": arrs, "dim": c["dim"], "fn": op, "attrs": toks.enc(c["ds"]["attrs"])}
+        if op == "take":
+            posmode = c["spelling"] in ("ix", "isel")
+            r["ix"] = c["ix"]
+            r["cfg"] = {"captured": "label", "indexing": "position" if posmode else "label", "toggle": False, "tol": None,
+                        "keepdims": bool(c["keepdims"]) and c["spelling"] in ("take_dict", "take_axisarg")}
+        elif op == "take_axis":
+            r["labels"] = c["indices"]
+        elif op == "reindex_axis":
+            r["labels"] = c["labels"]
+            r["newkind"] = c["ds"]["axes"][c["dim"]]["kind"]
+            if any(l[0] == "n" and l[2] != 1 for l in c["labels"]) and r["newkind"] == "i":
+                r["newkind"] = "f"
+            r["fillkind"] = "f" if c.get("fill") is None or isinstance(c["fill"], float) else "i"
+        return r
+
+    def lean_vs_impl(self, c, io, ans):
+        """correspondence: the Lean Dataset model against the Dataset implementation"""
+        lean = ans.get("lib")
+        if c["op"] not in self.LEAN_OPS or (c["op"] == "take" and c["second"]) or not isinstance(lean, dict) or ("ok" not in lean and "err" not in lean):
+            return []
+        if "err" in io or "err" in lean:
+            if ("err" in io) != ("err" in lean):
+                return ["lean.outcome"]
+            return []          # (the class of the error is not part of C14)
+        res = io["ok"]["result"]
+        lo = lean["ok"]
+        bad = []
+        if sorted(res["keys"]) != sorted(lo["keys"]):
+            return ["lean.keys"]
+        if res["dims"] != lo["dims"]:
+            bad.append("lean.dims")
+        ds = build_dataset(c["ds"])
+        fill = np.nan if c.get("fill") is None else c["fill"]
+        red = None
+        if c["op"] == "reduce":
+            from .c08 import expected_red
+            red = expected_red(c["fn"], True)
+        env = core.CellEnv([ds[k].values for k in c["ds"]["vars"]], fill=fill, red=red)
+        for k in res["keys"]:
+            got = res["vars"][k]
+            lv = core.lean_obs_to_canon(lo["vars"][k], env)
+            if got["dims"] != lv["dims"] or got["shape"] != lv["shape"]:
+                bad.append("lean.var:%s:dims" % k)
+            elif [(a["name"], [lab_key(l) for l in a["labels"]]) for a in got["axes"]] != [(a["name"], [lab_key(l) for l in a["labels"]]) for a in lv["axes"]]:
+                bad.append("lean.var:%s:labels" % k)
+            elif [rv(v) for v in got["values"]] != [rv(v) for v in lv["values"]]:
+                bad.append("lean.var:%s:values" % k)
+        return bad
 
     def judge(self, c, io, ans):
         prop_bad = []
@@ -340,9 +405,10 @@ class C14(Prop):
                 prop_bad.append("dataset_attrs")
         if io.get("operand_modified"):
             prop_bad.append("operand_modified")
-        if not prop_bad:
+        bad = [] if prop_bad else self.lean_vs_impl(c, io, ans)
+        if not prop_bad and not bad:
             return None
-        return {"kind": "P", "differs": sorted(set(prop_bad)), "msg": io.get("msg")}
+        return {"kind": "P" if prop_bad else "M", "differs": sorted(set(prop_bad + bad)), "msg": io.get("msg")}
 
     def per_var_fails(self, c):
         """does the corresponding DimArray operation fail on some variable that has the dimension?"""
